@@ -109,6 +109,8 @@ pub enum ApplyError {
     MissingParent,
     #[error("verdict for this revision has already been applied")]
     DuplicateVerdict,
+    #[error("revision {0} already exists")]
+    DuplicateRevision(EntryId),
     #[error("revision is in an unexpected state")]
     UnexpectedState,
     #[error("revision has been redacted")]
@@ -514,8 +516,12 @@ impl Identity {
                 signature,
                 parent,
             } => {
-                debug_assert!(!self.revisions.contains_key(&entry));
-
+                if self.revisions.contains_key(&entry) {
+                    // Revisions are identified by the change that introduced them, hence a
+                    // change with a second revision would replace the first one, even if
+                    // it was already accepted.
+                    return Err(ApplyError::DuplicateRevision(entry));
+                }
                 let doc = repo.blob(blob)?;
                 let doc = Doc::from_blob(&doc)?;
                 // All revisions but the first one must have a parent.
